@@ -218,7 +218,10 @@ class Gen:
             return None
         us = self.universes(pool)
         unis = [self._pick(us) for _ in range(self.rng.randint(0, 3))] if us else []
-        return ["mkv", self.fresh("V"), self.rng.choice(VCLS), [], unis, self._ckind()]
+        ls = self.links(pool)
+        # both arguments in one call now and then (links are attached before the universes are told)
+        links = [self._pick(ls)] if ls and "mke" in self.weights and self.rng.random() < 0.3 else []
+        return ["mkv", self.fresh("V"), self.rng.choice(VCLS), links, unis, self._ckind()]
 
     def g_mku(self, pool):
         if self.count(pool, "U") >= LIMITS["U"]:
